@@ -234,8 +234,13 @@ func judgeC13(sc *Scenario, rr *RunResult, env *core.Env) (string, string) {
 
 func genC20(r *core.Rand, env *core.Env, run int) *Scenario {
 	sc := &Scenario{Kind: "C20"}
-	ndb := pick(r, []int{1, 2, 2, 16})
+	ndb := pick(r, []int{1, 2, 2, 16, 3, 17, 20})
 	sc.Knobs = Knobs{ShardNum: pick(r, []int{1, 2, 8}), Databases: ndb, MaxSteps: 8000, Strategy: pick(r, []int{0, 1}), PreemptPct: 30}
+	if r.Bool(0.5) {
+		// "for all database counts": the count reaches the server the way it does in
+		// production, through config.Parse of a configuration file
+		sc.Knobs.ConfigText = genConfigText(r, sc.Knobs.ShardNum, ndb)
+	}
 	nc := 1 + r.Intn(4)
 	keys := []string{"k", "j"}
 	uniq := 0
@@ -278,6 +283,23 @@ func genC20(r *core.Rand, env *core.Env, run int) *Scenario {
 		}
 		sc.Clients = append(sc.Clients, p)
 	}
+	if r.Bool(0.35) {
+		// a connection hangs up with a database selected; a connection accepted
+		// afterwards starts in database 0 like any other
+		c0 := &sc.Clients[0]
+		c0.Steps = append(c0.Steps, Step{Kind: "cmd", Args: bs("select", itoa(r.Intn(ndb)))}, Step{Kind: "close"})
+		late := ClientProg{Name: fmt.Sprintf("c%d", nc), Pipeline: 1, Late: true, Steps: []Step{{Kind: "connect", Tag: c0.Name}}}
+		for i, n := 0, 2+r.Intn(3); i < n; i++ {
+			k := pick(r, keys)
+			if r.Bool(0.5) {
+				uniq++
+				late.Steps = append(late.Steps, Step{Kind: "cmd", Args: bs("set", k, fmt.Sprintf("vL_%d", uniq))})
+			} else {
+				late.Steps = append(late.Steps, Step{Kind: "cmd", Args: bs("get", k)})
+			}
+		}
+		sc.Clients = append(sc.Clients, late)
+	}
 	// auditor: look into every database
 	aud := ClientProg{Name: "zaudit", Role: "auditor", Pipeline: 1, Steps: []Step{{Kind: "barrier"}}}
 	for d := 0; d < min(ndb, 3); d++ {
@@ -288,6 +310,39 @@ func genC20(r *core.Rand, env *core.Env, run int) *Scenario {
 	}
 	sc.Clients = append(sc.Clients, aud)
 	return sc
+}
+
+// genConfigText renders a configuration file that sets the shard and database
+// counts, in the liberties the format allows: key case, blanks, comments, other
+// settings around, LF / CRLF line ends, and a last line with or without one.
+func genConfigText(r *core.Rand, shards, ndb int) string {
+	lines := []string{
+		pick(r, []string{"databases", "Databases", "DATABASES"}) + pick(r, []string{" ", "  ", "\t"}) + itoa(ndb),
+		pick(r, []string{"shardnum", "ShardNum"}) + " " + itoa(shards),
+	}
+	extra := []string{"# a comment", "", "loglevel info", "port 6380", "host 127.0.0.1", "logdir ./", "#databases 9", "appendonly no"}
+	for i, n := 0, r.Intn(4); i < n; i++ {
+		lines = append(lines, pick(r, extra))
+	}
+	// tape-free shuffle from the run's generator
+	for i := len(lines) - 1; i > 0; i-- {
+		j := r.Intn(i + 1)
+		lines[i], lines[j] = lines[j], lines[i]
+	}
+	if r.Bool(0.4) {
+		// the database count on the last line
+		for i, l := range lines {
+			if strings.HasPrefix(strings.ToLower(l), "databases") {
+				lines[i], lines[len(lines)-1] = lines[len(lines)-1], lines[i]
+			}
+		}
+	}
+	eol := pick(r, []string{"\n", "\n", "\r\n"})
+	text := strings.Join(lines, eol)
+	if r.Bool(0.5) {
+		text += eol
+	}
+	return text
 }
 
 func judgeC20(sc *Scenario, rr *RunResult, env *core.Env) (string, string) {
